@@ -368,7 +368,7 @@ func faultInstances(tier string) []Instance {
 							if s.n == 3 && !thorough(tier) && (!active || pre) {
 								bound = 0
 							}
-							if s.n == 2 && active && !pre && !late && kind == "QuorumCall" && extra == 1 {
+							if s.n == 2 && len(s.failing) == 1 && active && !pre && !late && kind == "QuorumCall" && extra == 1 {
 								bound = 2 // the fault thread against a call that has to be completed with an error
 							}
 							p := faultParams{kind: kind, n: s.n, failing: s.failing, fault: f, extra: extra, late: late, pre: pre}
